@@ -34,7 +34,10 @@ DocTable == <<
   Obj(<<Mem(cx, Str(<<60>>)), Mem(ca, N1)>>),                         \* 5  strings that need HTML escaping
   \* 6, 7: numbers that differ only beyond float64 precision / only in spelling, and one outside the float64 range
   Obj(<<Mem(ca, N1), Mem(cb, Num(<<49,50,51,52,53,54,55,56,57,48,49,50,51,52,53,54,55,56,57,48,49,50,51>>)), Mem(ce, Num(<<49,101,52,48,48>>))>>),
-  Obj(<<Mem(ca, Num(<<49,46,48>>)), Mem(cb, Num(<<49,50,51,52,53,54,55,56,57,48,49,50,51,52,53,54,55,56,57,48,49,50,52>>)), Mem(ce, Num(<<49,101,52,48,48>>))>>) >>
+  Obj(<<Mem(ca, Num(<<49,46,48>>)), Mem(cb, Num(<<49,50,51,52,53,54,55,56,57,48,49,50,51,52,53,54,55,56,57,48,49,50,52>>)), Mem(ce, Num(<<49,101,52,48,48>>))>>),
+  \* 8: a member name that occurs twice (outside the domain of the operation semantics: the RESULT of a call on it is not
+  \*    specified - but it is still a function of the arguments: the same bytes every time)
+  Obj(<<Mem(ca, N1), Mem(cb, N2), Mem(cc, N1), Mem(cd, N2), Mem(ce, N1), Mem(ca, N2)>>) >>
 \* RFC 6902 patches: operation sequences, or Bad
 P(s) == [ok |-> TRUE, ops |-> s]
 PatchTable == <<
@@ -81,6 +84,7 @@ SmallCalls ==
   \cup { C3("Apply", 1, 2, 3), C3("Apply", 1, 8, 3) }      \* under the limit: a copy that fits; a copy followed by a failing test
   \cup { C3("Apply", 1, 9, 1), C3("Apply", 1, 10, 1), C3("Apply", 3, 10, 2), C3("Apply", 1, 11, 1), C3("Apply", 3, 11, 1) }
   \cup { C2("CreateMergePatch", 6, 7), C2("CreateMergePatch", 7, 6), C2("Equal", 6, 7) }
+  \cup { C3("Apply", 8, 1, 1), C3("ApplyIndent", 8, 5, 1) }
   \cup { C2("DecodePatch", 4, 0), C2("DecodePatch", 2, 0) }
   \cup { C2("MergePatch", 1, 1), C2("MergePatch", 1, 4), C2("MergePatch", 3, 2) }
   \cup { C2("MergeMergePatches", 1, 2), C2("CreateMergePatch", 1, 3), C2("CreateMergePatch", 1, 4) }
@@ -109,6 +113,7 @@ Result(c) ==
          LET d == DocTable[c.a]  p == PatchTable[c.b] IN
          IF ~p.ok THEN Fail("BadPatch")
          ELSE IF d.t = "malformed" THEN Fail("BadDoc")
+         ELSE IF ~NoDupKeys(d) THEN Fail("dc")
          ELSE LET r == RunAll(d, p.ops, Opt(c.o), [lo |-> 0, hi |-> 0], 1) IN
               IF r.k = "ok" THEN Val(r.v) ELSE IF r.k = "dc" THEN Fail("dc") ELSE Fail(r.cls)
     [] c.api = "DecodePatch" -> Flag(PatchTable[c.a].ok)
